@@ -172,7 +172,20 @@ func runC08(r *ev.Run) {
 		cw3.L("vault.Create(a1,thr2)", "transfer(a0->W,40)", "W.authorize(a0,#0,policy a2 25/5) first of two"),
 		cw3.L("vault.Create(a1,thr2)", "transfer(a0->W,40)", "W.authorize(a0,#0,exec transfer W->a2 100>balance)"),
 	}
-	worlds := []*c08world{cw0, cw1, cw2, cw3}
+	// fifth: equivocation wipes the whole escrow account (active and debonding balance zero with
+	// shares outstanding): escrow operations against a fully slashed pool fail late
+	cw4 := newC08World(r, chain.GenesisOptions{SlashAmount: 1000000, EpochInterval: 4, NodeExpiration: 12})
+	cw4.menu = nil
+	for _, t := range cw4.w.stakingTxs() {
+		if t.Method == staking.MethodAddEscrow || t.Method == staking.MethodReclaimEscrow || t.Method == staking.MethodTransfer && t.Name == "transfer(a0->a1,10,fee2)" {
+			cw4.menu = append(cw4.menu, t)
+		}
+	}
+	for _, ev := range []string{"evidence=dupvote:0", "evidence=dupvote:1", "evidence=dupvote:2"} {
+		// whichever validator the index denotes: one of the three hits the account that is debonding
+		cw4.prefixes = append(cw4.prefixes, cw4.L("reclaim(a0<-e0,100sh)", ev), cw4.L("reclaim(e1<-e1,333sh)", ev))
+	}
+	worlds := []*c08world{cw0, cw1, cw2, cw3, cw4}
 	L := cw0.L
 	cw0.prefixes = [][]letter{
 		{},
